@@ -90,6 +90,13 @@ Definition run (args : list bytes) : bytes :=
     | Some (d, []) => out_res ser (mdp (table_mp tbl) secret d)
     | _ => lit "BADARGS"
     end
-  else if is_op "secret_key" op then out_bool (secret_key (KStr (nth_arg args 1)))
+  else if is_op "key" op then
+    (* the key test observed the way the harness observes it: mask_dict_password({k: 0}, 'M') *)
+    match mdp (table_mp []) (lit "M") (VMap 0 [(KStr (nth_arg args 1), VOther (lit "i0"))]) with
+    | Ok (VMap 0 [(_, VStr m)]) => if beq m (lit "M") then lit "True" else lit "OTHER"
+    | Ok (VMap 0 [(_, VOther t)]) => if beq t (lit "i0") then lit "False" else lit "OTHER"
+    | Ok _ => lit "OTHER"
+    | Exn e => out_exn e
+    end
   else lit "BADOP".
 Extraction "model.ml" run.
